@@ -28,6 +28,10 @@ from . import engine
 MAX_PATHS = 6000
 
 
+# hook: (Sym, raw discriminant) -> value fixed by crate constants for every variant, or None (see props/constfold.py)
+CONST_ORACLE = [None]
+
+
 class PathLimit(Exception):
     pass
 
@@ -445,6 +449,10 @@ class Sym:
                 d = self.operand(env, t["discr"])
                 vals = [v for v, _ in t["targets"]]
                 # constant discriminant: follow the only feasible edge
+                if d[0] != "const" and CONST_ORACLE[0] is not None:
+                    cv = CONST_ORACLE[0](self, d)
+                    if cv is not None:
+                        d = ("const", cv)
                 if d[0] == "const":
                     tgt = t["otherwise"]
                     for v, b2 in t["targets"]:
